@@ -157,14 +157,21 @@ def check_maxtime_set_after_parse(g: List[float], N: int, twice: bool) -> bool:
 
 def check_bad_values_rejected(which: int, T: int) -> bool:
     """
-    pre: 0 <= which <= 3
+    pre: 0 <= which <= 8
     pre: 0 <= T <= 2
     post: _
     """
     blocks = ("x = G\nx(0) = undefined_name\nexogenous\nG = [1.,2.,3.]",
               "x = G\nexogenous\nG = undefined_name",
               "x = G\nx(0) = 1/0\nexogenous\nG = [1.,2.,3.]",
-              "x = G\nexogenous\nG = 1/0")
+              "x = G\nexogenous\nG = 1/0",
+              # an exogenous value stated in terms of another variable of the block (an earlier / later exogenous series, a variable with an
+              # initial condition, an endogenous variable, the time step) cannot be evaluated either
+              "x = G + H\nexogenous\nG = [1.,2.,3.]\nH = G",
+              "x = G + H\nexogenous\nH = G\nG = [1.,2.,3.]",
+              "x = G + H\nL = x(k-1)\nx(0) = 7.\nexogenous\nG = [1.,2.,3.]\nH = 2.*x",
+              "x = G + H\ny = 3.0\nexogenous\nG = [1.,2.,3.]\nH = [y, y, y]",
+              "x = G + H\nexogenous\nG = [1.,2.,3.]\nH = [k, k, k]")
     es = EquationSolver()
     es.MaxTime = T
     es.ParseString(blocks[which])
